@@ -117,7 +117,9 @@ def _seq(seq, flags, top=False):
             if top and av in (sre_c.AT_END_STRING,) and idx == len(items) - 1:
                 continue
             if top and av is sre_c.AT_END and idx == len(items) - 1 and not (flags & re.M):
-                raise Untranslatable('$ matches before a trailing newline; use \\Z')
+                # Python's $ also matches just before one trailing newline
+                out.append(z3.Option(_chr_re(10)))
+                continue
             raise Untranslatable('anchor %s inside pattern' % av)
         else:
             raise Untranslatable('opcode %s' % op)
@@ -207,3 +209,31 @@ def lang_diff_witness(q, ra, rb, max_len=None, timeout_ms=60000, what=''):
 def z3str_to_py(txt):
     """z3 prints non-ASCII as \\u{..}; turn a model string into a Python str."""
     return re.sub(r'\\u\{([0-9a-fA-F]+)\}', lambda m: chr(int(m.group(1), 16)), txt)
+
+
+def top_items(pat):
+    """z3 regexes of the top-level sequence items of a compiled pattern (anchors dropped) - the group structure of the REAL regex."""
+    tree = sre_parse.parse(pat.pattern, pat.flags & ~re.U)
+    out = []
+    for op, av in tree:
+        if op is sre_c.AT:
+            continue
+        out.append(_seq([(op, av)], pat.flags))
+    return out
+
+
+def unique_decomposition(q, items, timeout_ms=120000, what='', max_part=None):
+    """unsat of: two different tuples (x_k in items[k]) with equal concatenation -> every string has ONE decomposition."""
+    xs = [z3.String('x%d' % k) for k in range(len(items))]
+    ys = [z3.String('y%d' % k) for k in range(len(items))]
+    cons = [z3.InRe(x, r) for x, r in zip(xs, items)] + [z3.InRe(y, r) for y, r in zip(ys, items)]
+    cons.append(z3.Concat(*xs) == z3.Concat(*ys))
+    cons.append(z3.Or(*[x != y for x, y in zip(xs, ys)]))
+    if max_part is not None:
+        cons += [z3.Length(v) <= max_part for v in xs + ys]
+    res, model = q.check(cons, timeout_ms, what)
+    if res == 'unsat':
+        return 'confirmed', None
+    if res == 'sat':
+        return 'refuted', ''.join(model[x].as_string() for x in xs)
+    return 'unknown', None
